@@ -19,6 +19,13 @@ FRESH_METHODS = {'copy', 'deepcopy', '__copy__', '__deepcopy__', 'to_dataset', '
 # methods returning a new container object whose *attrs/encoding dictionaries and data may be shared*:
 VIEW_METHODS = {'isel', 'sel', 'squeeze', 'transpose', 'expand_dims', 'values', 'variables', 'data_vars', 'coords'}
 
+# numpy constructors: does the result own its data?  (copy= overrides the default)
+COPY_DEFAULT_TRUE = {'array', 'masked_invalid', 'masked_equal', 'masked_where', 'masked_values', 'copy', 'full_like', 'zeros_like', 'empty_like'}
+COPY_DEFAULT_FALSE = {'asarray', 'asanyarray', 'masked_array', 'MaskedArray', 'ascontiguousarray', 'atleast_1d', 'ravel', 'reshape', 'transpose', 'squeeze'}
+
+# functions of these libraries return new objects (those that can return views are listed above)
+THIRD_PARTY_FRESH = {'numpy', 'np', 'shapely', 'pandas', 'itertools', 'functools', 'json', 'math', 'operator', 'xarray', 'cftime', 'pytz', 'hashlib'}
+
 NONCANONICAL_CALLS = {
     'hash': 'hash() is randomised per process for str/bytes',
     'id': 'id() is an address',
@@ -75,6 +82,18 @@ def roots_of(flow: Flow, expr: ast.AST, depth: int = 10, _seen: Optional[set] = 
         return roots_of(flow, expr.value, depth, _seen)
     if isinstance(expr, ast.Call):
         f = expr.func
+        fname = (dotted(f) or '').rsplit('.', 1)[-1]
+        if isinstance(f, ast.Attribute) and _is_module_function(flow, f) and fname in (COPY_DEFAULT_TRUE | COPY_DEFAULT_FALSE) and expr.args:
+            copy_kw = next((k.value for k in expr.keywords if k.arg == 'copy'), None)
+            copies = (fname in COPY_DEFAULT_TRUE) if copy_kw is None else (getattr(copy_kw, 'value', None) is True)
+            if copy_kw is not None and not isinstance(copy_kw, ast.Constant):
+                copies = False
+            if copies:
+                return {'fresh'}
+            return roots_of(flow, expr.args[0], depth - 1, _seen)
+        if isinstance(f, ast.Attribute) and _is_module_function(flow, f) and (dotted(f) or '').split('.')[0] in THIRD_PARTY_FRESH \
+                and not any(k.arg == 'out' for k in expr.keywords):
+            return {'fresh'}
         if isinstance(f, ast.Attribute) and _is_module_function(flow, f):
             out = set()
             for a in expr.args:
@@ -127,6 +146,19 @@ def _is_module_function(flow: Flow, f: ast.Attribute) -> bool:
 def writes_in(fi: FuncInfo, flow: Flow) -> Iterator[tuple[ast.AST, ast.AST, str]]:
     """(statement/call node, written object expr, how) for every store through an object."""
     for node in ast.walk(fi.node):
+        if isinstance(node, ast.AugAssign) and isinstance(node.target, ast.Name):
+            # `x += y` mutates an array parameter in place
+            ann = None
+            a = fi.node.args
+            for arg in a.posonlyargs + a.args + a.kwonlyargs:
+                if arg.arg == node.target.id and arg.annotation is not None:
+                    ann = ast.unparse(arg.annotation)
+            if ann and any(t in ann for t in ('ndarray', 'DataArray', 'Dataset', 'MaskedArray', 'list', 'dict', 'set')):
+                fake = ast.Name(id=node.target.id, ctx=ast.Load())
+                ast.copy_location(fake, node.target)
+                flow.uses[id(fake)] = list(flow.env_at.get(id(node), {}).get(node.target.id, []))
+                yield node, fake, 'augmented assignment ' + norm_text(node)
+            continue
         if isinstance(node, (ast.Assign, ast.AnnAssign, ast.AugAssign)):
             targets = node.targets if isinstance(node, ast.Assign) else [node.target]
             stack = list(targets)
